@@ -74,6 +74,42 @@ Section Gen.
     apply existsb_exists. exists g. split; [exact Hg|].
     destruct g; [discriminate|]. simpl. rewrite Hl. exact Ha.
   Qed.
+  (* completeness: if some item carries the lookup + permission guard and some item the `== 0` guard, and every early exit
+     is the lookup + permission test, then every qualifying neighbour of an inaccessible examined value IS reported *)
+  Lemma try_loop_complete : forall n i a j chain g,
+    In chain items -> In g chain -> i <= j < i + Z.of_nat n ->
+    guard_holds lookup allowed g (Z.lxor a (2 ^ j)) = true ->
+    In (mk a (Z.lxor a (2 ^ j))) (try_loop items lookup allowed mk n i a).
+  Proof.
+    induction n as [|n IH]; intros i a j chain g Hc Hg Hj Hh; [simpl in Hj; lia|].
+    cbn [try_loop]. apply in_or_app.
+    destruct (Z.eq_dec j i) as [->|Hne].
+    - left. apply in_flat_map. exists chain. split; [exact Hc|]. unfold item_out.
+      replace (existsb (fun g0 => guard_holds lookup allowed g0 (Z.lxor a (2 ^ i))) chain) with true; [left; reflexivity|].
+      symmetry. apply existsb_exists. exists g. auto.
+    - right. apply (IH (i + 1) a j chain g Hc Hg); [lia|exact Hh].
+  Qed.
+
+  Theorem try_gen_complete : items_complete items = true -> early_only_mapped early = true ->
+    forall a lo hi j, lo <= j < hi -> ~ mapped_allowed a ->
+    (Z.lxor a (2 ^ j) = 0 \/ mapped_allowed (Z.lxor a (2 ^ j))) ->
+    In (mk a (Z.lxor a (2 ^ j))) (try_gen early items lookup allowed mk a lo hi).
+  Proof.
+    intros Hic Heo a lo hi j Hj Hna Hq. unfold try_gen.
+    replace (existsb (fun g => guard_holds lookup allowed g a) early) with false.
+    2:{ symmetry. apply not_true_is_false. intro E. apply existsb_exists in E. destruct E as [g [Hg Hh]].
+        unfold early_only_mapped in Heo. rewrite forallb_forall in Heo. specialize (Heo g Hg).
+        destruct g; [discriminate|]. simpl in Hh. apply Hna.
+        destruct (lookup a) as [mi|] eqn:E; [|discriminate]. exists mi. auto. }
+    unfold items_complete in Hic. apply andb_true_iff in Hic. destruct Hic as [Hm Hz].
+    destruct Hq as [Hq|[mi [Hl Ha]]].
+    - apply existsb_exists in Hz. destruct Hz as [chain [Hc Hz]]. apply existsb_exists in Hz. destruct Hz as [g [Hg Hk]].
+      apply (try_loop_complete _ lo a j chain g Hc Hg); [lia|].
+      destruct g as [k|]; [|discriminate]. simpl. rewrite Hq. rewrite Z.eqb_sym. exact Hk.
+    - apply existsb_exists in Hm. destruct Hm as [chain [Hc Hm]]. apply existsb_exists in Hm. destruct Hm as [g [Hg Hk]].
+      apply (try_loop_complete _ lo a j chain g Hc Hg); [lia|].
+      destruct g; [discriminate|]. simpl. rewrite Hl. exact Ha.
+  Qed.
 End Gen.
 
 (* ------------------------------------------------------------ (2) the source as it is = the hand-written model *)
@@ -300,8 +336,9 @@ Section Dump.
 End Dump.
 
 (* ------------------------------------------------------------ the property clauses on the compiled try_bit_flips, without the hand model *)
-Lemma try_side_conditions : items_ok TRY_ITEMS = true /\ early_ok TRY_EARLY = true.
-Proof. split; reflexivity. Qed.
+Lemma try_side_conditions : items_ok TRY_ITEMS = true /\ early_ok TRY_EARLY = true /\
+                            items_complete TRY_ITEMS = true /\ early_only_mapped TRY_EARLY = true.
+Proof. repeat split; reflexivity. Qed.
 
 Theorem try_src_sound : forall a reg br ctx rs op f,
   In f (try_bit_flips_src a reg br ctx rs op) ->
@@ -318,7 +355,7 @@ Qed.
 Theorem try_src_none_when_accessible : forall a reg br ctx rs op mi,
   lookup_region rs a = Some mi -> possibly_allowed op mi = true -> try_bit_flips_src a reg br ctx rs op = [].
 Proof.
-  intros. unfold try_bit_flips_src. apply try_gen_none_when_accessible; [exact (proj2 try_side_conditions)|].
+  intros. unfold try_bit_flips_src. apply try_gen_none_when_accessible; [exact (proj1 (proj2 try_side_conditions))|].
   exists mi. auto.
 Qed.
 
@@ -347,4 +384,38 @@ Theorem the_property_src : forall analysis arch platform_id e pc l,
 Proof.
   intros analysis arch platform_id e pc l H1 H2 H3 H4 H5. cbv zeta.
   rewrite dump_pipeline_src_refines. exact (the_property analysis arch platform_id e pc l H1 H2 H3 H4 H5).
+Qed.
+
+Theorem try_src_complete : forall a reg br ctx rs op j,
+  fst (br_bounds (br_of br)) <= j < snd (br_bounds (br_of br)) ->
+  ~ (exists mi, lookup_region rs a = Some mi /\ possibly_allowed op mi = true) ->
+  (Z.lxor a (2 ^ j) = 0 \/ exists mi, lookup_region rs (Z.lxor a (2 ^ j)) = Some mi /\ possibly_allowed op mi = true) ->
+  exists f, In f (try_bit_flips_src a reg br ctx rs op) /\ f_addr f = Z.lxor a (2 ^ j) /\ f_reg f = reg.
+Proof.
+  intros a reg br ctx rs op j Hj Hna Hq.
+  exists (mk_flip_src reg br ctx a (Z.lxor a (2 ^ j))). split; [|split; reflexivity].
+  unfold try_bit_flips_src. destruct try_side_conditions as [_ [_ [Hc He]]].
+  apply (try_gen_complete TRY_EARLY TRY_ITEMS); auto.
+Qed.
+
+Theorem the_property_maps_src : forall analysis arch platform_id e pc l,
+  u64_recs l ->
+  let c := dump_cpu arch in
+  let os := os_class (dump_os platform_id) in
+  let r := dump_reason arch platform_id e in
+  let address := dump_address arch platform_id e in
+  let flips := dump_pipeline_src analysis arch platform_id e pc (regions_of_maps l) in
+  (forall f, In f flips ->
+     exists a j, examined_by analysis c os r address pc f a /\
+                 inaccessible (regions_of_maps l) (memop_of_reason r) a /\
+                 br_lo (pipeline_br analysis c os r address pc) <= j < br_hi (pipeline_br analysis c os r address pc) /\
+                 f_addr f = Z.lxor a (2 ^ j) /\
+                 (f_addr f = 0 \/
+                  exists lo hi p, In (lo, hi, p) l /\ lo <= f_addr f <= hi /\ maps_allows (memop_of_reason r) p = true) /\
+                 le_b32 (f32 0) (confidence (f_det f)) = true /\ le_b32 (confidence (f_det f)) (f32 F32_ONE_bits) = true) /\
+  (forall x oa, pc = Some x -> analysis x = Some oa -> has_null_flag oa -> flips = []) /\
+  (~ (arch = 9 \/ arch = 32770 \/ arch = 32772) -> flips = []).
+Proof.
+  intros analysis arch platform_id e pc l H1. cbv zeta.
+  rewrite dump_pipeline_src_refines. exact (the_property_maps analysis arch platform_id e pc l H1).
 Qed.
